@@ -170,6 +170,8 @@ type fsImpl struct {
 	nextV   int
 	nextH   int
 	mtimes  map[int64]bool
+	leak    string // base-path prefix that must never show up in errors or results (BasePathFS)
+	leaked  string
 	dead    bool // a call hung or panicked while holding locks: the instance is unusable
 }
 
@@ -318,7 +320,31 @@ func infoStr(name string, fi fs.FileInfo, vfs avfs.VFS) string {
 	return fmt.Sprintf("%s:%d:%o:%d:%d:%d:%d:m%d", lib.Hex(name), kind, permBits(fi.Mode()), st.Uid(), st.Gid(), st.Nlink(), fi.Size(), fi.ModTime().UnixNano())
 }
 
+// checkLeak records a path embedded in an error that reveals the base path.
+func (m *fsImpl) checkLeak(err error) {
+	if m.leak == "" || err == nil {
+		return
+	}
+	var pe *fs.PathError
+	var le *os.LinkError
+	switch {
+	case errors.As(err, &pe):
+		if strings.HasPrefix(pe.Path, m.leak) {
+			m.leaked = "PathError.Path=" + pe.Path
+		}
+	case errors.As(err, &le):
+		if strings.HasPrefix(le.Old, m.leak) || strings.HasPrefix(le.New, m.leak) {
+			m.leaked = "LinkError=" + le.Old + "," + le.New
+		}
+	}
+}
+
+var leakSink *fsImpl
+
 func okOrErr(err error) string {
+	if leakSink != nil {
+		leakSink.checkLeak(err)
+	}
 	if err != nil {
 		return "err " + errName(err)
 	}
@@ -354,6 +380,10 @@ func (m *fsImpl) call(line string) string {
 func atoiS(s string) int { n, _ := strconv.Atoi(s); return n }
 
 func (m *fsImpl) exec(line string) string {
+	leakSink = nil
+	if m.leak != "" {
+		leakSink = m
+	}
 	f := strings.Fields(line)
 	if len(f) < 2 || f[0] != "fs" {
 		return "bad-op"
